@@ -390,6 +390,16 @@ def _bc_for(case_bc, default="auto_periodic_neumann"):
     return default if case_bc is None else case_bc
 
 
+def _bc_object(grid, bc, rank, cache):
+    """the parsed boundary conditions (parsing an expression condition runs sympy.simplify: 0.2 s)"""
+    import json
+
+    key = (json.dumps(bc, sort_keys=True, default=str), rank)
+    if key not in cache:
+        cache[key] = grid.get_boundary_conditions(bc, rank=rank)
+    return cache[key]
+
+
 def worker(case):
     import warnings
 
@@ -464,11 +474,13 @@ def _run_class_case(case):
     if not jit_on:
         # measure the operators through the field API, with the condition the class documents
         ops = {}
+        bc_cache = {}
         for tag, t in (("t", case["t"]), ("t2", case["t2"])):
             for role, (opname, bcname) in OP_ROLES[case["cls"]].items():
                 bc = _bc_for(case["bcs"].get(bcname))
                 if bc is None or (bcname == "bc_lap" and case["bcs"].get("bc_lap") is None):
                     bc = _bc_for(case["bcs"].get("bc"))
+                bc = _bc_object(grid, bc, 0, bc_cache)      # parsed once (sympy), applied many times
                 if opname == "laplace":
                     ops[f"{role}@{tag}"] = _measure_affine(
                         lambda a, bc=bc, t=t: pde.ScalarField(grid, a.reshape(grid.shape)).laplace(bc=bc, args={"t": t}).data.ravel(), n)
@@ -571,6 +583,7 @@ def _run_generic_case(case):
             out["evaluate_" + backend] = flat(res.data)
     if not jit_on:
         ops = {}
+        bc_cache = {}
         for var, text in case["rhs"].items():
             ast = X.read_text(text, set(case["fields"]) | set(consts) | set(case["grid"]["axes"]) | {"t"})
             used = {nd["f"] for nd in X.walk(ast) if nd["k"] == "call1" and nd["f"] in
@@ -580,6 +593,8 @@ def _run_generic_case(case):
                 d = ops.setdefault(f"{var}@{tag}", {})
                 for op in used:
                     bc = lookup_bc(case, var, op)
+                    if op != "integral":
+                        bc = _bc_object(grid, bc, 1 if op == "divergence" else 0, bc_cache)
                     sf = lambda a: pde.ScalarField(grid, a.reshape(grid.shape))
                     if op == "laplace":
                         d["laplace"] = _measure_affine(lambda a, bc=bc, t=t: sf(a).laplace(bc=bc, args={"t": t}).data.ravel(), n)
